@@ -20,9 +20,7 @@ D = decimal.Decimal
 COLS = [('a', int), ('b', int)]
 
 
-def fresh_parse(text):
-    """A private tree (the compiler may renumber placeholders on it)."""
-    return native(beanquery.parser.parse, text)
+from ..tables import parse_fresh as fresh_parse  # noqa: E402
 
 
 def run_cursor(conn, stmt, params=None):
@@ -42,7 +40,7 @@ POSITIONAL = {
     'three-clauses': ('SELECT a, %s AS p FROM #t WHERE %s < a ORDER BY a * %s', 3),
     'subquery-first': ('SELECT a, %s - a AS q FROM #t WHERE a IN (SELECT b - %s FROM #t) OR a = %s', 3),
     'order-expr': ('SELECT a, b FROM #t ORDER BY (a - %s) * (b - %s) DESC', 2),
-    'group-having': ('SELECT b, sum(a + %s) AS s FROM #t GROUP BY b HAVING count(a) > %s', 2),
+    'group-having': ('SELECT a IS NULL AS k, sum(a + %s) AS s FROM #t GROUP BY 1 HAVING count(b) > %s', 2),
 }
 NAMED = {
     'named2': ('SELECT %(x)s - %(y)s AS r, a FROM #t', ['x', 'y']),
@@ -157,7 +155,9 @@ def make_fold(astcls, opcls, domains, variant):
         doms[p] = d
     vtag = '' if variant is None else f'.{variant}'
 
-    @cond(f'C09.fold.{astcls.__name__}[{sig}]{vtag}', quick=90, thorough=360,
+    heavy = datetime.date in intypes
+
+    @cond(f'C09.fold.{astcls.__name__}[{sig}]{vtag}', quick=240 if heavy else 90, thorough=720 if heavy else 360,
           bounds=sym.describe_all(doms), symbolic='the constant operands',
           enumerated='operator overload (one condition each)', params=sym.all_params(doms), group='C09.fold')
     def fold(**kw):
@@ -201,7 +201,7 @@ FOLD_FUNCS = [
     ('upper', [sym.VStr(3, nullable=False)], str),
     ('abs', [sym.VDec(nullable=False)], D),
     ('year', [sym.VDate(nullable=False)], datetime.date),
-    ('str', [sym.VInt(nullable=False)], int),
+    ('str', [sym.VInt(-1000, 1000, nullable=False)], int),
     ('int', [sym.VChoice(['12', 'x', '', '-3'], str)], str),
     ('date_add', [sym.VDate(nullable=False, maxday=28), sym.VInt(-400, 400, nullable=False)], None),
     ('substr', [sym.VChoice(['abcd', ''], str), sym.VInt(-5, 5, nullable=False), sym.VInt(-5, 5, nullable=False)], None),
@@ -217,8 +217,8 @@ def make_fold_func(fname, domains):
     def fold_func(**kw):
         values = [doms[f'a{i}'].build(f'a{i}', kw) for i in range(len(domains))]
         if fname == 'coalesce':
-            assume(values[0] is not None or values[1] is not None)
-            assume(values[0] is not None)   # a NULL literal has its own type: coalesce(NULL, 1) is not uniform
+            # a NULL literal has its own type: coalesce(1, NULL) is not uniform
+            assume(values[0] is not None and values[1] is not None)
         coltypes = [(f'c{i}', d.dtype) for i, d in enumerate(domains)]
         table = HTable('t', coltypes, [tuple(values)])
         folded = func(fname, *[const(v) for v in values])
@@ -243,7 +243,7 @@ STATEMENTS = [
     ('SELECT %s - %s AS r FROM #t', 2),
     ('SELECT a, %s AS p FROM #t WHERE %s < a ORDER BY a * %s', 3),
     ('SELECT a FROM #t WHERE a IN (SELECT b FROM #t WHERE b != %s)', 1),
-    ('SELECT b, sum(a) AS s, count(*) AS n FROM #t GROUP BY b', 0),
+    ('SELECT b IS NULL AS k, sum(a) AS s, count(*) AS n FROM #t GROUP BY 1', 0),
     ('SELECT b FROM #u', 0),
     ('SELECT a + b AS s', 0),           # no FROM clause: the default table
     ('SELECT a FROM (SELECT b AS a FROM #u)', 0),
@@ -260,13 +260,13 @@ def make_history(k1, k2, reuse):
     mode = 'same-tree' if reuse else 'text'
 
     @cond(f'C09.history.{k1}-{k2}.{mode}', quick=120, thorough=400,
-          bounds=f'one cursor: "{t1}" then "{t2}" ({mode}); tables of <=2 rows of symbolic ints or NULL; symbolic parameters; '
+          bounds=f'one cursor: "{t1}" then "{t2}" ({mode}); table of one symbolic row (ints or NULL) plus one fixed row; symbolic parameters; '
                  'each result must equal the result of a fresh connection executing only that statement',
           symbolic='parameters of both executions, cells', enumerated='statement pair and reuse mode (one condition each)',
           group='C09.history')
-    def history(rows: List[Tuple[Optional[int], Optional[int]]], p0: Optional[int], p1: Optional[int],
-                p2: Optional[int], q0: Optional[int], q1: Optional[int], q2: Optional[int]) -> str:
-        assume(len(rows) <= 2)
+    def history(row: Tuple[Optional[int], Optional[int]], p0: Optional[int], p1: int, p2: int, q0: int) -> str:
+        rows = [row, (3, 1)]
+        q1, q2 = p0, p1
         urows = [(7, 8)]
         conn = _conn(rows, urows)
         cur = conn.cursor()
@@ -311,11 +311,12 @@ for _k1 in range(len(STATEMENTS)):
 
 @cond('C09.executemany', quick=120,
       bounds='executemany of a statement with 1..3 positional placeholders over two parameter tuples (symbolic ints or '
-             'NULL), <=2 rows: completes, and leaves the result of the last tuple',
+             'NULL), one symbolic row plus one fixed row: completes, and leaves the result of the last tuple',
       symbolic='parameters, cells', enumerated='number of placeholders (selector)')
-def executemany(rows: List[Tuple[Optional[int], Optional[int]]], k: int, p0: Optional[int], p1: Optional[int],
-                p2: Optional[int], q0: Optional[int], q1: Optional[int], q2: Optional[int]) -> str:
-    assume(len(rows) <= 2)
+def executemany(row: Tuple[Optional[int], Optional[int]], k: int, p0: Optional[int], p1: int,
+                p2: int, q0: int) -> str:
+    rows = [row, (3, 1)]
+    q1, q2 = p0, p1
     text, n = pick(STATEMENTS[:3], k)
     conn = _conn(rows, [])
     cur = conn.cursor()
